@@ -817,3 +817,90 @@ func (e *Env) ListCollections(db string) Call {
 		return r
 	}}
 }
+
+// RunOnly performs a call without observing the engine (concurrent drivers observe
+// through hooks); a panic is reported as a finding and yields nil.
+func (e *Env) RunOnly(c Call) (res V) {
+	defer func() {
+		if r := recover(); r != nil {
+			e.finding("panic", fmt.Sprintf("%s panics: %v", c.Op, r), V{"op": c.Op, "ns": c.NS, "a": c.A})
+			res = nil
+		}
+	}()
+	return c.Run(e)
+}
+
+// ObsCache memoises catalog dumps by pointer (catalogs are immutable once published).
+type ObsCache struct {
+	e *Env
+	m map[*lungo.Catalog][3]interface{}
+}
+
+// NewObsCache ...
+func NewObsCache(e *Env) *ObsCache { return &ObsCache{e: e, m: map[*lungo.Catalog][3]interface{}{}} }
+
+// Get returns (state, events, ts) of the catalog.
+func (o *ObsCache) Get(c *lungo.Catalog) (V, []interface{}, []interface{}) {
+	if x, ok := o.m[c]; ok {
+		return x[0].(V), x[1].([]interface{}), x[2].([]interface{})
+	}
+	st, evs, ts := o.e.Obs(c)
+	o.m[c] = [3]interface{}{st, evs, ts}
+	return st, evs, ts
+}
+
+// EmitCall writes a call event whose pre/post states are the given catalogs.
+func (e *Env) EmitCall(o *ObsCache, c Call, res V, pre, post *lungo.Catalog, actor string, extra V) {
+	preSt, preEv, _ := o.Get(pre)
+	postSt, postEv, ts := o.Get(post)
+	delta := []interface{}{}
+	if len(postEv) >= len(preEv) {
+		delta = append(delta, postEv[len(preEv):]...)
+	}
+	if g, ok := c.A["gen"]; ok {
+		if gm, ok := g.(V); ok && gm["t"] == "missing" {
+			if id := newObjectID(preSt, postSt, c.NS); id != nil {
+				c.A["gen"] = id
+			}
+		}
+	}
+	e.T.Add(c.NS)
+	e.Step++
+	ev := V{"fn": "call", "hist": e.Hist, "step": e.Step, "op": c.Op, "ns": c.NS, "a": c.A, "pre": preSt, "res": res, "post": postSt, "ev": delta, "ts": ts, "actor": actor}
+	for k, v := range extra {
+		ev[k] = v
+	}
+	e.Trace.Write(ev)
+}
+
+// MongoIndex builds an index model.
+func MongoIndex(key bson.D, unique bool, partial bson.D) mongo.IndexModel {
+	o := options.Index()
+	if unique {
+		o.SetUnique(true)
+	}
+	if partial != nil {
+		o.SetPartialFilterExpression(partial)
+	}
+	return mongo.IndexModel{Keys: key, Options: o}
+}
+
+// EmitSeq writes a transaction (a sequence of calls committed or discarded together) as one event.
+func (e *Env) EmitSeq(o *ObsCache, calls []Call, results []V, pre, post *lungo.Catalog, committed bool) {
+	preSt, preEv, _ := o.Get(pre)
+	postSt, postEv, ts := o.Get(post)
+	delta := []interface{}{}
+	if len(postEv) >= len(preEv) {
+		delta = append(delta, postEv[len(preEv):]...)
+	}
+	cl := []interface{}{}
+	for i, c := range calls {
+		if results[i] == nil {
+			return
+		}
+		e.T.Add(c.NS)
+		cl = append(cl, V{"op": c.Op, "ns": c.NS, "a": c.A, "res": results[i]})
+	}
+	e.Step++
+	e.Trace.Write(V{"fn": "txnseq", "hist": e.Hist, "step": e.Step, "calls": cl, "pre": preSt, "post": postSt, "ev": delta, "ts": ts, "committed": committed})
+}
